@@ -9,7 +9,7 @@ use std::str::FromStr;
 
 pub fn lanes() -> Vec<Lane> {
     vec![
-        Lane { name: "gen", count: |c| if c.thorough() { 2_000_000 } else { 100_000 }, run: gen_lane },
+        Lane { name: "gen", count: |c| if c.thorough() { 2_000_000 } else { 300_000 }, run: gen_lane },
     ]
 }
 
